@@ -3,7 +3,7 @@ from pyvc import verify
 from bounded import corrupt, roundtrip
 from contracts import validators
 from spec import fields as F
-from .common import ctx, std, contract_samples
+from .common import ctx, std, contract_samples, history_samples
 
 KINDS = ["composeinfo", "images", "rpms", "modules", "extra_files", "treeinfo", "discinfo"]
 
@@ -59,6 +59,7 @@ def check(run):
         fails = corrupt.dump_side(run, c.mods, kind, nobj)
         if fails:
             corrupt.dump_violation(run, kind, fails[0])
+    history_samples(run, c, [k for k in sorted(c.contracts) if k.startswith("valid:")])
     run.note("container emptiness that no field rule covers (a tree without variants -> IndexError in General.serialize) is outside "
              "both halves of the property")
     run.note("proved: per-class validators (flat and container-shaped), flat section writers, and the composeinfo forest writer "
